@@ -2,6 +2,7 @@
   The prev/next finder's decision about one anchor (Model/LinkScore.lean), shared by C16 and C17.
 -/
 import Distill.Proofs.LinkScore
+import Distill.Proofs.Pagination
 import Distill.Model.PageInfo
 import Distill.Proofs.Scan
 import Distill.Gen.Funcs
@@ -61,6 +62,31 @@ theorem page_diff_slices_in_range (a b : List UInt8) (skip : Nat) :
     simp only [List.mem_range] at this
     omega
   · omega
+
+/-- **What the prev/next finder returns, from the facts about the anchors**: the empty string, or the
+cleaned href of an anchor of the page that could be made absolute, starts with the page's
+scheme://host/ prefix (compared case-insensitively), is not the page itself, is not banned, and
+scored at least 50 — for every list of anchors. -/
+theorem find_outlink_provenance (next : Bool) (Fs : List Facts) :
+    findOutlink next Fs = "" ∨
+    ∃ F ∈ Fs, F.href = findOutlink next Fs ∧ F.absOK = true ∧ F.hasPrefix = true ∧ F.cleanOK = true ∧
+      F.eqCurrent = false ∧ ∃ sc, verdict next F = .cand sc ∧ sc ≥ 50 := by
+  unfold findOutlink
+  simp only []
+  rcases Pg.prevnext_is_candidate _ (Fs.filterMap fun F => match verdict next F with | .cand sc => some (⟨F.href, sc⟩ : Pg.Cand) | _ => none) with h | ⟨c, hc, he, hs, _⟩
+  · exact Or.inl h
+  · right
+    simp only [List.mem_filterMap] at hc
+    obtain ⟨F, hF, hv⟩ := hc
+    split at hv
+    · rename_i sc hvd
+      simp only [Option.some.injEq] at hv
+      subst hv
+      have hp := verdict_cand_passes next F sc hvd
+      simp only [passes, Bool.and_eq_true, Bool.or_eq_true, Bool.not_eq_eq_eq_not, Bool.not_true, Bool.or_eq_false_iff] at hp
+      obtain ⟨⟨⟨⟨⟨⟨⟨h1, h2⟩, _⟩, h4⟩, h5⟩, _⟩, _⟩, _⟩ := hp
+      exact ⟨F, hF, he, h1, h2, h4, h5.1, sc, hvd, hs⟩
+    · cases hv
 
 /-! ### page-number links (`getPageInfoAndText`) -/
 
